@@ -471,3 +471,50 @@ Definition result_hdrs (f : function) (set : option (Z * value)) : list (ttype *
                                 | None => zero_slot g end in
                     if present g slot then Some (spec_ttype (f_ty g), f_id g) else None)
                  (result_fields f)).
+
+(* ---- streaming functions: generator/golang/backend.go removeStreamingFunctions +
+        streaming.ParseStreaming.  Without the option thrift_streaming every function of a service
+        of the MAIN file whose annotations contain the key "streaming.mode" is taken out of the
+        service before any code is generated: recognised modes (client / server / bidirectional /
+        unary, exactly one argument) with the warning "skip streaming function", everything else
+        (unknown value, several values, argument count <> 1) with "failed to parse streaming" ---- *)
+
+Record function_src := mkfsrc {
+  fs_fn : function;
+  fs_stream : option (list bytes)       (* the values of the annotation streaming.mode, if present *)
+}.
+
+Record service_src := mksrc {
+  ss_name : bytes;
+  ss_extends : option bytes;
+  ss_main : bool;                       (* declared in the file given on the command line *)
+  ss_funs : list function_src
+}.
+
+Definition mode_client : bytes := [x63;x6c;x69;x65;x6e;x74].
+Definition mode_server : bytes := [x73;x65;x72;x76;x65;x72].
+Definition mode_bidirectional : bytes := [x62;x69;x64;x69;x72;x65;x63;x74;x69;x6f;x6e;x61;x6c].
+Definition mode_unary : bytes := [x75;x6e;x61;x72;x79].
+Definition mode_ok (v : bytes) : bool :=
+  beqb v mode_client || beqb v mode_server || beqb v mode_bidirectional || beqb v mode_unary.
+
+Inductive parsed_streaming := PNot | PStreaming | PError.
+
+Definition parse_streaming (f : function_src) : parsed_streaming :=
+  match fs_stream f with
+  | None => PNot
+  | Some [v] => if mode_ok v
+                then (if (length (fn_args (fs_fn f)) =? 1)%nat then PStreaming else PError)
+                else PError
+  | Some _ => PError
+  end.
+
+Definition keeps (f : function_src) : bool :=
+  match parse_streaming f with PNot => true | _ => false end.
+
+Definition remove_streaming (l : list function_src) : list function := map fs_fn (filter keeps l).
+
+(* the service the templates see *)
+Definition effective (s : service_src) : service :=
+  mksvc (ss_name s) (ss_extends s)
+        (if ss_main s then remove_streaming (ss_funs s) else map fs_fn (ss_funs s)).
